@@ -68,6 +68,7 @@ type scenario struct {
 	PrintfAt    []int      `json:"printf_at"` // wait indexes at which another goroutine calls Shell.Printf
 	NoSnapshot  bool       `json:"no_snapshot"`
 	AskersCheck bool       `json:"askers_check"` // after each call, count goroutines still inside GetCursorPos
+	Preamble    int        `json:"preamble"`     // rows of output printed before the first call (the prompt starts lower on the screen)
 	CompSnap    bool       `json:"comp_snap"`    // also report the completion engine (grids, selector, completed line) in snapshots
 }
 
@@ -292,6 +293,9 @@ func main() {
 	readline.VerifSetStdin(rd)
 
 	emit(map[string]interface{}{"ev": "ready", "main": string(sh.Keymap.Main()), "ncommands": len(sh.Keymap.Commands())})
+	for i := 0; i < sc.Preamble; i++ {
+		fmt.Print("\r\n")
+	}
 	for call := 0; call < sc.Calls; call++ {
 		before := termios()
 		func() {
